@@ -284,7 +284,9 @@ class MetropolisChain(MarkovChain):
         temperature: float = 1.0,
         display_progress: bool = True,
     ):
-        self.inv_temp = float(1.0 / temperature)  # (a plain float, as load() restores it)
+        # (a plain float, as load() restores it - converted before the division, which a
+        # single- or half-precision numpy scalar would otherwise carry out in its own type)
+        self.inv_temp = 1.0 / float(temperature)
         self.rng = default_rng()
 
         if posterior is not None:
